@@ -6,3 +6,4 @@ pub mod fx;
 pub mod eq;
 pub mod ai;
 pub mod list;
+pub mod resolve;
